@@ -452,3 +452,69 @@ theorem encodeTree_enc (env : Env) (O : Oracle) (hna : env.noAny = true) (hO : F
     · cases h
 
 end J5V.Codec
+
+namespace J5V.Codec
+open J5V.Go J5V.Json
+
+theorem fieldSimple_noAny (fld : Field) (h : fieldSimple fld = true) : fieldNoAny fld = true := by
+  cases fld with
+  | array i => cases i <;> simp [fieldSimple, itemSimple, fieldNoAny] at h ⊢
+  | map i => cases i <;> simp [fieldSimple, itemSimple, fieldNoAny] at h ⊢
+  | any pb => simp [fieldSimple] at h
+  | _ => rfl
+
+theorem simple_noAny (env : Env) (h : env.simple = true) : env.noAny = true := by
+  unfold Env.simple at h
+  simp only [Bool.and_eq_true] at h
+  unfold Env.noAny
+  apply List.all_eq_true.mpr
+  intro d hd
+  have hr := List.all_eq_true.mp h.1 d hd
+  cases hroot : d.2 with
+  | object ps =>
+    rw [hroot] at hr
+    simp only [rootSimple, Bool.and_eq_true] at hr
+    simp only []
+    apply List.all_eq_true.mpr
+    intro p hp
+    have := List.all_eq_true.mp hr.1.1 p hp
+    simp only [Bool.and_eq_true, propSimple] at this
+    exact fieldSimple_noAny _ this.1.2
+  | oneof ps =>
+    rw [hroot] at hr
+    simp only [rootSimple, Bool.and_eq_true] at hr
+    simp only []
+    apply List.all_eq_true.mpr
+    intro p hp
+    have := List.all_eq_true.mp hr.1.1.1 p hp
+    simp only [Bool.and_eq_true, propSimple] at this
+    exact fieldSimple_noAny _ this.2
+  | «enum» a b => rfl
+  | noschema => rfl
+
+/-- **byte-level well-formedness**: every successful encoding (of any message whatsoever, in an
+environment without `Any`) is accepted by the strict parser, which returns the encoder's tree -/
+theorem encodeBytes_parses (env : Env) (O : Oracle) (hna : env.noAny = true) (hO : FloatTextOk O)
+    (root : String) (v : PVal) (bs : Bytes) (h : encodeBytes env O root v = .ok bs) :
+    ∃ t, encodeTree env O root v = .ok t ∧ bs = t.render ∧ parse bs = some t := by
+  unfold encodeBytes at h
+  cases ht : encodeTree env O root v with
+  | err e => simp [ht] at h
+  | panic w => simp [ht] at h
+  | ok t =>
+    simp only [ht] at h; cases h
+    exact ⟨t, rfl, rfl, parse_render t (encodeTree_enc env O hna hO root v t ht)⟩
+
+/-- **byte-level round trip** -/
+theorem roundtrip_bytes (c : Cfg) (hs : c.env.simple = true) (L : OracleLaws c.O) (root : String)
+    (m : Fields) (bs : Bytes)
+    (hok : valOk c.env c.O (.object root) (.msg m) = true ∨ valOk c.env c.O (.oneof root) (.msg m) = true)
+    (henc : encodeBytes c.env c.O root (.msg m) = .ok bs) : decodeBytes c root bs = .ok m := by
+  obtain ⟨t, ht, rfl, _⟩ := encodeBytes_parses c.env c.O (simple_noAny c.env hs)
+    (floatTextOk_of_laws c.O L) root (.msg m) bs henc
+  unfold decodeBytes
+  rw [readDoc_render t (encodeTree_enc c.env c.O (simple_noAny c.env hs) (floatTextOk_of_laws c.O L)
+    root (.msg m) t ht)]
+  exact roundtrip_tree c hs L root m t hok ht
+
+end J5V.Codec
